@@ -745,11 +745,15 @@ func (g *Gen) Select(wantAlias bool) *GSelect {
 		ng := r.Intn(3)
 		for i := 0; i < ng; i++ {
 			var e *GExpr
-			switch r.Intn(3) {
+			switch r.Intn(5) {
 			case 0:
 				e = &GExpr{Kind: "value", T: TS}
 			case 1:
 				e = call(TS, "substr", &GExpr{Kind: "key", T: TS}, ilit(0), ilit(r.Range(1, 3)))
+			case 2:
+				e = &GExpr{Kind: "key", T: TS}
+			case 3:
+				e = call(TS, "lower", &GExpr{Kind: "value", T: TS})
 			default:
 				e = g.S(1, "")
 			}
